@@ -382,6 +382,7 @@ func (c01) Eval(c *Chooser, env *Env) *Outcome {
 	o.Sig = w.Hash() ^ res.K.TraceHash
 	o.Sample = map[string]any{"args": w.Args, "cwd": w.Cwd, "cpus": w.CPUs, "faults_planned": desc, "faults_fired": res.K.FaultsFired, "exit": res.Exit,
 		"stderr": firstLine(res.Stderr), "io_ops": res.K.IOOps, "tasks": res.K.Tasks}
+	o.Digest = DigestOf(res.Stdout, res.Exit, res.Errs, res.Fatal != "")
 	if v := runFailure("C01", res.K); v != nil {
 		v.Message += " [faults: " + strings.Join(desc, ", ") + "]"
 		o.V = v
